@@ -727,7 +727,12 @@ impl Vec3A {
     #[inline]
     #[must_use]
     pub fn round(self) -> Self {
-        Self(f32x4_nearest(self.0))
+        // `f32x4_nearest` rounds half-way cases to even; round them away from zero like
+        // `f32::round`: add the largest value below 0.5 with the sign of each lane and
+        // truncate. The sign is or-ed back in so that values rounding to zero keep it.
+        let sign = v128_and(self.0, f32x4_splat(-0.0));
+        let almost_half = v128_or(f32x4_splat(0.499_999_97), sign);
+        Self(v128_or(f32x4_trunc(f32x4_add(self.0, almost_half)), sign))
     }
 
     /// Returns a vector containing the largest integer less than or equal to a number for each
